@@ -234,7 +234,7 @@ func C13(p *core.Program, r *core.Report) {
 	for _, cs := range allCallSites(p, routingPkg+".filterCLAs") {
 		nF++
 		fn := cs.Parent()
-		algo, ok := constStringOf(core.CallArgs(cs)[2], nil)
+		algo, ok := constStringOf(core.Arg(cs, 2), nil)
 		base := "no-repeat/" + fname(fn) + "/filterCLAs/"
 		if !ok {
 			r.Fail(base+"algorithm-constant", "the algorithm name passed to filterCLAs is a constant", p.Pos(cs.Pos()), "non-constant")
@@ -253,7 +253,7 @@ func C13(p *core.Program, r *core.Report) {
 		}
 		r.Check(okP, base+"persisted", "the list returned by filterCLAs is stored under the same key and written to the store before the selection is returned", p.Pos(cs.Pos()), "", why)
 		// the item filtered is the bundle's own item
-		okItem := core.DependsOn(core.CallArgs(cs)[0], func(v ssa.Value) bool {
+		okItem := core.DependsOn(core.Arg(cs, 0), func(v ssa.Value) bool {
 			c, ok := v.(*ssa.Call)
 			return ok && core.NameIs(core.CalleeName(c), storagePkg+".Store.QueryId")
 		})
@@ -363,7 +363,7 @@ func C13(p *core.Program, r *core.Report) {
 		for _, cd := range conds {
 			x, isNil, ok := core.NilCmp(cd)
 			if ok && isNil {
-				if sc, ok := x.(*ssa.Call); ok && core.NameIs(core.CalleeName(sc), routingPkg+".Core.senderForDestination") && pathEndsWith(core.CallArgs(sc)[0], "PrimaryBlock", "Destination") {
+				if sc, ok := x.(*ssa.Call); ok && core.NameIs(core.CalleeName(sc), routingPkg+".Core.senderForDestination") && pathEndsWith(core.Arg(sc, 0), "PrimaryBlock", "Destination") {
 					okD = true
 				}
 			}
@@ -381,7 +381,7 @@ func C13(p *core.Program, r *core.Report) {
 		if b, ok := c.Common().Value.(*ssa.Builtin); ok && b.Name() == "append" && isSenderSlice(c.Type()) {
 			conds := core.DominatingConds(c.Block())
 			call, g := callGuard(conds, bp7+".EndpointID.SameNode", true)
-			okG := g && isPeerIDOf(core.CallRecv(call), appendedSender(c)) && core.CallArgs(call)[0] == ssa.Value(sfd.Params[1])
+			okG := g && isPeerIDOf(core.CallRecv(call), appendedSender(c)) && core.Arg(call, 0) == ssa.Value(sfd.Params[1])
 			r.Check(okG, "direct-delivery/"+fname(sfd)+"/same-node", "direct delivery selects exactly the peers whose endpoint is the destination node", p.Pos(c.Pos()), "", "append not guarded by cs.GetPeerEndpointID().SameNode(endpoint)")
 		}
 	})
